@@ -290,6 +290,9 @@ func parseSumTag(raw string) *Tag {
 	return &Tag{Len: t.Len, Val: t.Val}
 }
 
+// RawStruct describes a struct type field by field, ignoring its own codec methods.
+func (u *Universe) RawStruct(t reflect.Type) *Desc { return u.describeStruct(t) }
+
 func (u *Universe) describeStruct(t reflect.Type) *Desc {
 	if _, ok := t.FieldByName("SumType"); ok {
 		d := &Desc{Kind: KSum}
